@@ -82,6 +82,8 @@ def dropped_single_node_routes(cls, args, sol, full):
     rk = routes_key(cls)
     if args.get("flow_attr_origin", "edge") != "node":
         return []
+    if len(sol[rk]) == len([r for r in full[rk] if len(r) >= 1]):
+        return []          # nothing was dropped
     return [(r, w) for r, w in zip(full[rk], full["weights"]) if len(r) == 1]
 
 
